@@ -164,9 +164,13 @@ func (d c01) Execute(c *core.Case) *core.Result {
 				res.Violate("C01", "false-accept", fmt.Sprintf("%s verification of %s by actor %d succeeded although %s", modeOf(op), op.Ref, op.Actor, why), op.ID, append(feats, "mode="+modeOf(op))...)
 				return false
 			}
-			if v.Class == "other" || v.Class == "injected" || strings.HasPrefix(v.Class, "panic") {
-				res.Violate("C01", "unexpected-error", fmt.Sprintf("%s verification of %s failed with an unclassified error %q", modeOf(op), op.Ref, v.Err), op.ID, "mode="+modeOf(op))
+			if strings.HasPrefix(v.Class, "panic") {
+				res.Violate("C01", "panic", fmt.Sprintf("%s verification of %s panicked: %q", modeOf(op), op.Ref, v.Err), op.ID, "mode="+modeOf(op))
 				return false
+			}
+			if v.Class == "other" || v.Class == "injected" {
+				// the statement asks for a failure, not for a particular error: counted, not reported
+				res.Stat("rejections_with_an_unclassified_error", 1)
 			}
 		}
 		return true
